@@ -104,8 +104,38 @@ fn string_of(t: &mut Tape, len: usize, alpha: &[char], prefix: &str) -> String {
     s
 }
 
+/// Texts with the conventional syntax of the fields they usually sit in (MIME content types with parameters, URIs,
+/// client identifiers, reason phrases, key=value pairs): code that looks *into* a text field only reacts to these.
+const REALISTIC: &[&str] = &[
+    "text/plain; charset=iso-8859-1",
+    "text/plain;charset=us-ascii",
+    "application/json; charset=utf-16",
+    "text/plain; charset=utf-8",
+    "application/octet-stream",
+    "application/x-protobuf; proto=telemetry.v1",
+    "mqtt://broker.example.com:1883",
+    "tls://10.0.0.1:8883/path?x=1&y=2",
+    "sensor-0001",
+    "mqttjs_8f3a9c2e",
+    "Not authorized",
+    "Quota exceeded: retry after 30s",
+    "content-type",
+    "x-trace-id",
+    "00-4bf92f3577b34da6a3ce929d0e0e4736-00f067aa0ba902b7-01",
+    "Basic dXNlcjpwYXNz",
+    "SCRAM-SHA-256",
+    "GS2-KRB5",
+    "user@example.com",
+    "null",
+    "true",
+    "0",
+];
+
 pub fn gen_string(t: &mut Tape, cfg: &GenCfg) -> String {
     let len = gen_len(t, cfg);
+    if t.chance(1, 12) {
+        return REALISTIC[t.pick(REALISTIC.len())].to_string();
+    }
     string_of(t, len, ALPHA_ANY, "")
 }
 
